@@ -844,6 +844,11 @@ func (vfs *MemFS) removeAll(parent *dirNode) (err error) {
 	parent.mu.Lock()
 	defer parent.mu.Unlock()
 
+	if len(parent.children) == 0 {
+		// an empty directory is removed by its parent : no permission on the directory itself is needed.
+		return nil
+	}
+
 	// the directory is read and modified.
 	if ok := parent.checkPermission(avfs.OpenRead|avfs.OpenWrite|avfs.OpenLookup, vfs.User()); !ok {
 		return vfs.err.PermDenied
